@@ -50,6 +50,10 @@ Proof.
   change (Z.pow_pos 2 52) with 4503599627370496. field.
 Qed.
 
+(* the value of a float given by its bits *)
+Lemma BR_fb (n : N) : BR (fb n) = FF2R radix2 (binary_float_of_bits_aux 52 11 (Z.of_N n)).
+Proof. unfold fb, f64_of_bits, b64_of_bits, binary_float_of_bits. apply B2R_FF2B. Qed.
+
 (* ---- the arithmetic operations, through Flocq's correctness theorems ---- *)
 Lemma overflow_not_finite (z : f64) (s : bool) :
   B2FF 53 1024 z = binary_overflow 53 1024 mode_NE s -> is_finite 53 1024 z = false.
@@ -566,7 +570,7 @@ Qed.
 End Index.
 
 (* ------------------------------------------------------------------ *)
-(* 7. buildFloat64                                                     *)
+(* 7. buildFloat64 (build_float64_raw = before the significand-2 repair, build_float64 = repaired) *)
 (* ------------------------------------------------------------------ *)
 Lemma exponent_field_shifted (E : Z) : 0 <= E < 2048 ->
   Z.land (E * 2 ^ 52) (Z.of_N exponent_mask) = E * 2 ^ 52.
@@ -577,87 +581,6 @@ Proof.
   change (2 ^ 11) with 2048. exact HE.
 Qed.
 
-(* a finite float in [1, 2) *)
-Lemma unit_binade_inv (s : f64) : fin s -> (1 <= BR s < 2)%R ->
-  exists mx H, s = B754_finite 53 1024 false mx (-52) H /\ 2 ^ 52 <= Zpos mx < 2 ^ 53.
-Proof.
-  intros Fs Bs.
-  assert (Hn : pos_normal s).
-  { split; [exact Fs|]. apply Rle_trans with (2 := proj1 Bs).
-    change 1%R with (bpow radix2 0). apply bpow_le. lia. }
-  destruct (pos_normal_inv s Hn) as (mx & ex & H & -> & Hm & He).
-  assert (E : x_exp (B754_finite 53 1024 false mx ex H) = 0).
-  { unfold x_exp. rewrite (mag_unique radix2 _ 1); [reflexivity|].
-    rewrite Rabs_pos_eq by lra. exact Bs. }
-  rewrite (x_exp_finite mx ex H Hm) in E. assert (ex = -52) by lia. subst ex.
-  exists mx, H. split; [reflexivity|exact Hm].
-Qed.
-
-Lemma build_float64_bits (e : Z) (mx : positive) (H : SpecFloat.bounded 53 1024 mx (-52) = true) :
-  -1022 <= e <= 1023 -> 2 ^ 52 <= Zpos mx < 2 ^ 53 ->
-  build_float64 e (B754_finite 53 1024 false mx (-52) H) =
-    b64_of_bits ((e + 1023) * 2 ^ 52 + (Zpos mx - 2 ^ 52)).
-Proof.
-  intros He Hm. unfold build_float64.
-  rewrite (proj2 (Z.ltb_ge 1023 e)) by lia.
-  unfold fb, f64_of_bits. f_equal.
-  change 4503599627370496 with (2 ^ 52).
-  rewrite N2Z_lor, !N2Z_land.
-  rewrite Z2N.id by (apply Z.mod_pos_bound; lia).
-  rewrite Z.mod_small by lia.
-  rewrite exponent_field_shifted by lia.
-  unfold bits_of_f64. rewrite (bits_of_normal false mx (-52) H Hm ltac:(lia)).
-  change (0 + (-52 + 1075)) with 1023. rewrite <- N2Z_land.
-  rewrite significand_field by lia. apply lor_disjoint. lia.
-Qed.
-
-Lemma build_float64_normal (e : Z) (s : f64) : -1022 <= e <= 1023 -> fin s -> (1 <= BR s < 2)%R ->
-  fin (build_float64 e s) /\ BR (build_float64 e s) = (BR s * bpow radix2 e)%R /\
-  pos_normal (build_float64 e s).
-Proof.
-  intros He Fs Bs. destruct (unit_binade_inv s Fs Bs) as (mx & H & -> & Hm).
-  rewrite (build_float64_bits e mx H He Hm).
-  destruct (of_bits_normal (e + 1023) (Zpos mx - 2 ^ 52) ltac:(lia) ltac:(lia)) as (mx' & H' & -> & Em).
-  assert (mx' = mx) by lia. subst mx'.
-  assert (HR : BR (B754_finite 53 1024 false mx (e + 1023 - 1075) H') =
-               (BR (B754_finite 53 1024 false mx (-52) H) * bpow radix2 e)%R).
-  { cbn [B2R cond_Zopp]. rewrite F2R_split. f_equal. f_equal. lia. }
-  split; [reflexivity|]. split; [exact HR|].
-  split; [reflexivity|]. rewrite HR.
-  apply Rle_trans with (1 * bpow radix2 e)%R.
-  - rewrite Rmult_1_l. apply bpow_le. lia.
-  - apply Rmult_le_compat_r; [apply bpow_ge_0|lra].
-Qed.
-
-Lemma build_float64_saturates (e : Z) (s : f64) : 1023 < e -> build_float64 e s = f64_pinf.
-Proof. intros He. unfold build_float64. rewrite (proj2 (Z.ltb_lt 1023 e) He). reflexivity. Qed.
-
-(* buildFloat64 (getExponent x) (getSignificandPlusOne x) = x *)
-Lemma build_float64_roundtrip (x : f64) : pos_normal x ->
-  build_float64 (x_exp x) (sp1_of x) = x.
-Proof.
-  intros Hx. destruct (decompose x Hx) as (mx & ex & H & H' & -> & Hm & He & Hb & Hge & Hgs).
-  unfold sp1_of. rewrite Hgs, (x_exp_finite mx ex H Hm).
-  rewrite (build_float64_bits (ex + 52) mx H' ltac:(lia) Hm).
-  rewrite <- (binary_float_of_bits_of_binary_float 52 11 eq_refl eq_refl eq_refl
-                (B754_finite 53 1024 false mx ex H)).
-  unfold b64_of_bits. f_equal. change (bits_of_binary_float 52 11) with bits_of_b64.
-  rewrite (bits_of_normal false mx ex H Hm He). ring.
-Qed.
-
-(* same 52 fraction bits *)
-Lemma sp1_fraction_bits (x : f64) : pos_normal x ->
-  N.land (bits_of_f64 (sp1_of x)) significand_mask = N.land (bits_of_f64 x) significand_mask.
-Proof.
-  intros Hx. destruct (decompose x Hx) as (mx & ex & H & H' & -> & Hm & He & Hb & Hge & Hgs).
-  unfold sp1_of. rewrite Hgs. apply N2Z.inj. rewrite Hb. unfold bits_of_f64.
-  rewrite (bits_of_normal false mx (-52) H' Hm ltac:(lia)).
-  rewrite !significand_field by lia. reflexivity.
-Qed.
-
-(* ------------------------------------------------------------------ *)
-(* 8. approximateInverseLog / LowerBound of the linear mapping         *)
-(* ------------------------------------------------------------------ *)
 Lemma bpow_m52 : bpow radix2 (-52) = (/ IZR 4503599627370496)%R.
 Proof. reflexivity. Qed.
 
@@ -687,21 +610,271 @@ Proof.
   rewrite Rmult_assoc, <- bpow_plus. f_equal. f_equal. lia.
 Qed.
 
+(* a finite float in [2^k, 2^(k+1)) for the two binades that matter *)
+Lemma binade_inv (s : f64) (k : Z) : -1022 <= k <= 1023 -> fin s ->
+  (bpow radix2 k <= BR s < bpow radix2 (k + 1))%R ->
+  exists mx H, s = B754_finite 53 1024 false mx (k - 52) H /\ 2 ^ 52 <= Zpos mx < 2 ^ 53.
+Proof.
+  intros Hk Fs Bs.
+  assert (Hn : pos_normal s).
+  { split; [exact Fs|]. apply Rle_trans with (2 := proj1 Bs). apply bpow_le. lia. }
+  destruct (pos_normal_inv s Hn) as (mx & ex & H & -> & Hm & He).
+  assert (E : x_exp (B754_finite 53 1024 false mx ex H) = k).
+  { unfold x_exp. rewrite (mag_unique radix2 _ (k + 1)); [lia|].
+    pose proof (bpow_gt_0 radix2 k).
+    rewrite Rabs_pos_eq by lra. replace (k + 1 - 1) with k by lia. exact Bs. }
+  rewrite (x_exp_finite mx ex H Hm) in E. assert (ex = k - 52) by lia. subst ex.
+  exists mx, H. split; [reflexivity|exact Hm].
+Qed.
+
+Lemma unit_binade_inv (s : f64) : fin s -> (1 <= BR s < 2)%R ->
+  exists mx H, s = B754_finite 53 1024 false mx (-52) H /\ 2 ^ 52 <= Zpos mx < 2 ^ 53.
+Proof. intros Fs Bs. exact (binade_inv s 0 ltac:(lia) Fs Bs). Qed.
+
+Lemma build_float64_raw_bits (e : Z) (mx : positive) (H : SpecFloat.bounded 53 1024 mx (-52) = true) :
+  -1022 <= e <= 1023 -> 2 ^ 52 <= Zpos mx < 2 ^ 53 ->
+  build_float64_raw e (B754_finite 53 1024 false mx (-52) H) =
+    b64_of_bits ((e + 1023) * 2 ^ 52 + (Zpos mx - 2 ^ 52)).
+Proof.
+  intros He Hm. unfold build_float64_raw.
+  rewrite (proj2 (Z.ltb_ge 1023 e)) by lia.
+  unfold fb, f64_of_bits. f_equal.
+  change 4503599627370496 with (2 ^ 52).
+  rewrite N2Z_lor, !N2Z_land.
+  rewrite Z2N.id by (apply Z.mod_pos_bound; lia).
+  rewrite Z.mod_small by lia.
+  rewrite exponent_field_shifted by lia.
+  unfold bits_of_f64. rewrite (bits_of_normal false mx (-52) H Hm ltac:(lia)).
+  change (0 + (-52 + 1075)) with 1023. rewrite <- N2Z_land.
+  rewrite significand_field by lia. apply lor_disjoint. lia.
+Qed.
+
+Lemma build_float64_raw_normal (e : Z) (s : f64) : -1022 <= e <= 1023 -> fin s -> (1 <= BR s < 2)%R ->
+  fin (build_float64_raw e s) /\ BR (build_float64_raw e s) = (BR s * bpow radix2 e)%R /\
+  pos_normal (build_float64_raw e s).
+Proof.
+  intros He Fs Bs. destruct (unit_binade_inv s Fs Bs) as (mx & H & -> & Hm).
+  rewrite (build_float64_raw_bits e mx H He Hm).
+  destruct (of_bits_normal (e + 1023) (Zpos mx - 2 ^ 52) ltac:(lia) ltac:(lia)) as (mx' & H' & -> & Em).
+  assert (mx' = mx) by lia. subst mx'.
+  assert (HR : BR (B754_finite 53 1024 false mx (e + 1023 - 1075) H') =
+               (BR (B754_finite 53 1024 false mx (-52) H) * bpow radix2 e)%R).
+  { cbn [B2R cond_Zopp]. rewrite F2R_split. f_equal. f_equal. lia. }
+  split; [reflexivity|]. split; [exact HR|].
+  split; [reflexivity|]. rewrite HR.
+  apply Rle_trans with (1 * bpow radix2 e)%R.
+  - rewrite Rmult_1_l. apply bpow_le. lia.
+  - apply Rmult_le_compat_r; [apply bpow_ge_0|lra].
+Qed.
+
+Lemma build_float64_raw_saturates (e : Z) (s : f64) : 1023 < e -> build_float64_raw e s = f64_pinf.
+Proof. intros He. unfold build_float64_raw. rewrite (proj2 (Z.ltb_lt 1023 e) He). reflexivity. Qed.
+
+(* ---- the repaired function: the test  significandPlusOne >= 2  and the halving ---- *)
+Lemma c_two_fin : fin c_two.
+Proof. reflexivity. Qed.
+Lemma c_two_BR : BR c_two = 2%R.
+Proof.
+  unfold c_two. rewrite BR_fb. set (u := binary_float_of_bits_aux 52 11 _). vm_compute in u. subst u.
+  unfold FF2R, F2R. cbn [Fnum Fexp cond_Zopp].
+  change (bpow radix2 (-51)) with (/ IZR (Z.pow_pos 2 51))%R.
+  change (Z.pow_pos 2 51) with 2251799813685248. field.
+Qed.
+
+Lemma fle_two (s : f64) : fin s -> fle c_two s = true <-> (2 <= BR s)%R.
+Proof.
+  unfold fle, fcmp, b64_compare. intros Hs.
+  rewrite (Binary.Bcompare_correct 53 1024 c_two s c_two_fin Hs). rewrite c_two_BR.
+  destruct (Rcompare_spec 2 (B2R 53 1024 s)); split; intros; try reflexivity; try discriminate; lra.
+Qed.
+
+Lemma build_float64_lt2 (e : Z) (s : f64) : fin s -> (BR s < 2)%R ->
+  build_float64 e s = build_float64_raw e s.
+Proof.
+  intros Fs Hs. unfold build_float64. destruct (fle c_two s) eqn:E; [|reflexivity].
+  apply (fle_two s Fs) in E. lra.
+Qed.
+
+Lemma build_float64_ge2 (e : Z) (s : f64) : fin s -> (2 <= BR s)%R ->
+  build_float64 e s = build_float64_raw (e + 1) (fdiv s c_two).
+Proof.
+  intros Fs Hs. unfold build_float64. rewrite (proj2 (fle_two s Fs) Hs). reflexivity.
+Qed.
+
+(* s / 2 is exact on [2, 4) *)
+Lemma fdiv_two_R (s : f64) : fin s -> (2 <= BR s < 4)%R ->
+  fin (fdiv s c_two) /\ BR (fdiv s c_two) = (BR s / 2)%R.
+Proof.
+  intros Fs Bs.
+  destruct (binade_inv s 1 ltac:(lia) Fs) as (mx & H & -> & Hm).
+  { change (bpow radix2 1) with 2%R. change (bpow radix2 (1 + 1)) with 4%R. exact Bs. }
+  change (1 - 52) with (-51) in *.
+  assert (Eh : (BR (B754_finite 53 1024 false mx (-51) H) / 2 = IZR (Zpos mx) * bpow radix2 (-52))%R).
+  { cbn [B2R cond_Zopp]. unfold F2R. cbn [Fnum Fexp]. rewrite bpow_m52.
+    change (bpow radix2 (-51)) with (/ IZR (Z.pow_pos 2 51))%R.
+    change (Z.pow_pos 2 51) with 2251799813685248. field. }
+  assert (Er : rndR (BR (B754_finite 53 1024 false mx (-51) H) / 2) =
+               (BR (B754_finite 53 1024 false mx (-51) H) / 2)%R).
+  { rewrite Eh. apply rndR_generic. apply format_52. lia. }
+  assert (Hz : BR c_two <> 0%R) by (rewrite c_two_BR; lra).
+  pose proof (Binary.Bdiv_correct 53 1024 eq_refl eq_refl binop_nan_pl64 mode_NE
+                (B754_finite 53 1024 false mx (-51) H) c_two Hz) as Hd.
+  change (Binary.Bdiv 53 1024 eq_refl eq_refl binop_nan_pl64 mode_NE
+            (B754_finite 53 1024 false mx (-51) H) c_two)
+    with (fdiv (B754_finite 53 1024 false mx (-51) H) c_two) in Hd.
+  rewrite c_two_BR in Hd.
+  change (round radix2 (SpecFloat.fexp 53 1024) (round_mode mode_NE)) with rndR in Hd.
+  rewrite Er in Hd. rewrite Rlt_bool_true in Hd.
+  - destruct Hd as (H1 & H2 & _). split; [rewrite H2; reflexivity|exact H1].
+  - apply Rlt_le_trans with (bpow radix2 2); [|apply bpow_le; lia].
+    change (bpow radix2 2) with 4%R. apply Rabs_lt. lra.
+Qed.
+
+(* buildFloat64 on its documented domain: -1022 <= e <= 1023, 1 <= s < 2 *)
+Lemma build_float64_normal (e : Z) (s : f64) : -1022 <= e <= 1023 -> fin s -> (1 <= BR s < 2)%R ->
+  fin (build_float64 e s) /\ BR (build_float64 e s) = (BR s * bpow radix2 e)%R /\
+  pos_normal (build_float64 e s).
+Proof.
+  intros He Fs Bs. rewrite (build_float64_lt2 e s Fs (proj2 Bs)).
+  exact (build_float64_raw_normal e s He Fs Bs).
+Qed.
+
+(* the repaired case: a significand in [2, 4) is halved into the next binade *)
+Lemma build_float64_two (e : Z) (s : f64) : -1022 <= e + 1 <= 1023 -> fin s -> (2 <= BR s < 4)%R ->
+  fin (build_float64 e s) /\ BR (build_float64 e s) = (BR s * bpow radix2 e)%R /\
+  pos_normal (build_float64 e s).
+Proof.
+  intros He Fs Bs. rewrite (build_float64_ge2 e s Fs (proj1 Bs)).
+  destruct (fdiv_two_R s Fs Bs) as (Fh & Rh).
+  destruct (build_float64_raw_normal (e + 1) (fdiv s c_two) He Fh) as (F & R_ & N_).
+  { rewrite Rh. lra. }
+  split; [exact F|]. split; [|exact N_].
+  rewrite R_, Rh, bpow_plus. change (bpow radix2 1) with 2%R. field.
+Qed.
+
+(* saturation holds for EVERY significand (NaN and infinities included): both branches saturate *)
+Lemma build_float64_saturates (e : Z) (s : f64) : 1023 < e -> build_float64 e s = f64_pinf.
+Proof.
+  intros He. unfold build_float64. destruct (fle c_two s).
+  - apply build_float64_raw_saturates. lia.
+  - apply build_float64_raw_saturates. exact He.
+Qed.
+
+(* ... and at e = 1023 for a finite significand that is at least 2 *)
+Lemma build_float64_saturates_two (s : f64) : fin s -> (2 <= BR s)%R ->
+  build_float64 1023 s = f64_pinf.
+Proof.
+  intros Fs Hs. rewrite (build_float64_ge2 1023 s Fs Hs). apply build_float64_raw_saturates. lia.
+Qed.
+
+(* buildFloat64 (getExponent x) (getSignificandPlusOne x) = x *)
+Lemma build_float64_roundtrip (x : f64) : pos_normal x ->
+  build_float64 (x_exp x) (sp1_of x) = x.
+Proof.
+  intros Hx. destruct (decompose_R x Hx) as (_ & _ & _ & _ & Fs & Ms & _).
+  rewrite (build_float64_lt2 _ _ Fs (proj2 Ms)).
+  destruct (decompose x Hx) as (mx & ex & H & H' & -> & Hm & He & Hb & Hge & Hgs).
+  unfold sp1_of. rewrite Hgs, (x_exp_finite mx ex H Hm).
+  rewrite (build_float64_raw_bits (ex + 52) mx H' ltac:(lia) Hm).
+  rewrite <- (binary_float_of_bits_of_binary_float 52 11 eq_refl eq_refl eq_refl
+                (B754_finite 53 1024 false mx ex H)).
+  unfold b64_of_bits. f_equal. change (bits_of_binary_float 52 11) with bits_of_b64.
+  rewrite (bits_of_normal false mx ex H Hm He). ring.
+Qed.
+
+(* same 52 fraction bits *)
+Lemma sp1_fraction_bits (x : f64) : pos_normal x ->
+  N.land (bits_of_f64 (sp1_of x)) significand_mask = N.land (bits_of_f64 x) significand_mask.
+Proof.
+  intros Hx. destruct (decompose x Hx) as (mx & ex & H & H' & -> & Hm & He & Hb & Hge & Hgs).
+  unfold sp1_of. rewrite Hgs. apply N2Z.inj. rewrite Hb. unfold bits_of_f64.
+  rewrite (bits_of_normal false mx (-52) H' Hm ltac:(lia)).
+  rewrite !significand_field by lia. reflexivity.
+Qed.
+
+(* ------------------------------------------------------------------ *)
+(* 8. approximateInverseLog / LowerBound of the linear mapping         *)
+(* ------------------------------------------------------------------ *)
+(* the significand  rnd (rnd (r - floor r) + 1)  as a function of the real r *)
+Definition lin_sig (r : R) : R := rndR (rndR (r - IZR (Zfloor r)) + 1).
+
+Lemma lin_sig_range (r : R) : (1 <= lin_sig r <= 2)%R.
+Proof.
+  pose proof (Zfloor_lb r) as Hlb. pose proof (Zfloor_ub r) as Hub. unfold lin_sig.
+  assert (0 <= rndR (r - IZR (Zfloor r)) <= 1)%R.
+  { split.
+    - rewrite <- (rndR_IZR 0) by lia. apply rndR_le. lra.
+    - rewrite <- (rndR_IZR 1) by lia. apply rndR_le. lra. }
+  split.
+  - rewrite <- (rndR_IZR 1) at 1 by lia. apply rndR_le. lra.
+  - rewrite <- (rndR_IZR 2) by lia. apply rndR_le. lra.
+Qed.
+
+(* no rounding when r is a multiple of 2^-52 *)
+Lemma lin_sig_exact (r : R) (k : Z) : r = (IZR k * bpow radix2 (-52))%R ->
+  lin_sig r = (1 + (r - IZR (Zfloor r)))%R.
+Proof.
+  intros Hk. unfold lin_sig. set (n := Zfloor r).
+  pose proof (Zfloor_lb r) as Hlb. pose proof (Zfloor_ub r) as Hub. fold n in Hlb, Hub.
+  set (k' := k - n * 2 ^ 52).
+  assert (Ek : (r - IZR n = IZR k' * bpow radix2 (-52))%R).
+  { unfold k'. rewrite minus_IZR, mult_IZR, Hk, bpow_m52.
+    change (2 ^ 52) with 4503599627370496. field. }
+  assert (Bk : 0 <= k' < 2 ^ 52).
+  { assert (Eu : IZR k' = ((r - IZR n) * IZR 4503599627370496)%R)
+      by (rewrite Ek, bpow_m52; field).
+    change (2 ^ 52) with 4503599627370496. split.
+    - apply le_IZR. rewrite Eu. apply Rmult_le_pos; lra.
+    - apply lt_IZR. rewrite Eu.
+      replace (IZR 4503599627370496) with (1 * IZR 4503599627370496)%R at 2 by lra.
+      apply Rmult_lt_compat_r; lra. }
+  assert (E1 : rndR (r - IZR n) = (r - IZR n)%R).
+  { rewrite Ek. apply rndR_generic. apply format_52. lia. }
+  rewrite E1.
+  replace (r - IZR n + 1)%R with (IZR (k' + 2 ^ 52) * bpow radix2 (-52))%R.
+  - rewrite rndR_generic by (apply format_52; change (2 ^ 53) with (2 ^ 52 + 2 ^ 52); lia).
+    rewrite plus_IZR, Ek, bpow_m52. change (2 ^ 52) with 4503599627370496. field.
+  - rewrite plus_IZR, Ek, bpow_m52. change (2 ^ 52) with 4503599627370496. field.
+Qed.
+
+(* hence the significand is below 2 whenever |t| >= 1 *)
+Lemma lin_sig_lt_2_of_ge_1 (t : f64) : (1 <= Rabs (BR t))%R -> (lin_sig (BR t) < 2)%R.
+Proof.
+  intros H1. destruct (multiple_52_of_ge_1 t H1) as (k & Hk).
+  rewrite (lin_sig_exact _ k Hk). pose proof (Zfloor_ub (BR t)). lra.
+Qed.
+
+(* the real function  2^floor r * lin_sig r  is non-decreasing *)
+Lemma lin_inv_mono (r r' : R) : (r <= r')%R ->
+  (lin_sig r * bpow radix2 (Zfloor r) <= lin_sig r' * bpow radix2 (Zfloor r'))%R.
+Proof.
+  intros Hr. pose proof (Zfloor_le r r' Hr) as Hn.
+  pose proof (lin_sig_range r) as S. pose proof (lin_sig_range r') as S'.
+  destruct (Z.eq_dec (Zfloor r) (Zfloor r')) as [E|E].
+  - apply Rle_trans with (lin_sig r' * bpow radix2 (Zfloor r))%R; [|rewrite E; apply Rle_refl].
+    apply Rmult_le_compat_r; [apply bpow_ge_0|].
+    unfold lin_sig. rewrite E. apply rndR_le. apply Rplus_le_compat_r. apply rndR_le. lra.
+  - apply Rle_trans with (2 * bpow radix2 (Zfloor r))%R.
+    + apply Rmult_le_compat_r; [apply bpow_ge_0|lra].
+    + apply Rle_trans with (1 * bpow radix2 (Zfloor r'))%R.
+      * rewrite Rmult_1_l. change 2%R with (bpow radix2 1). rewrite <- bpow_plus. apply bpow_le. lia.
+      * apply Rmult_le_compat_r; [apply bpow_ge_0|lra].
+Qed.
+
 Section Lower.
 Variable L : libm.
 
-(* approximateInverseLog of the linear mapping: floor from the oracle, then
-   x - floor (rounded), + 1 (rounded), buildFloat64 *)
+(* approximateInverseLog of the linear mapping: floor from the oracle, then x - floor (rounded),
+   + 1 (rounded), buildFloat64.  With the repaired buildFloat64 no proviso on the significand. *)
 Lemma approx_inverse_log_lin_R (t : f64) :
   fin t -> fin (l_floor L t) -> BR (l_floor L t) = IZR (Zfloor (BR t)) ->
   -1022 <= Zfloor (BR t) <= 1023 ->
-  (rndR (rndR (BR t - IZR (Zfloor (BR t))) + 1) < 2)%R ->
   fin (approx_inverse_log L MLin t) /\
-  BR (approx_inverse_log L MLin t) =
-    (rndR (rndR (BR t - IZR (Zfloor (BR t))) + 1) * bpow radix2 (Zfloor (BR t)))%R /\
+  BR (approx_inverse_log L MLin t) = (lin_sig (BR t) * bpow radix2 (Zfloor (BR t)))%R /\
   pos_normal (approx_inverse_log L MLin t).
 Proof.
-  intros Ft Fe Re Hn Hs. unfold approx_inverse_log.
+  intros Ft Fe Re Hn. unfold approx_inverse_log.
+  pose proof (lin_sig_range (BR t)) as HS. unfold lin_sig in *.
   set (e := l_floor L t) in *. set (n := Zfloor (BR t)) in *.
   assert (Hi : int_of_f e = n) by (rewrite int_of_f_R, Re; apply Ztrunc_IZR).
   rewrite Hi.
@@ -715,12 +888,18 @@ Proof.
     - rewrite <- (rndR_IZR 1) by lia. apply rndR_le. lra. }
   destruct (fadd_bounded (fsub t e) f64_one Fd f64_one_fin) as (Fs & Rs).
   { rewrite f64_one_BR. apply (small_le_max 2); [lia|]. apply Rabs_le. lra. }
-  rewrite f64_one_BR, Rd in Rs.
-  assert (Bs : (1 <= BR (fadd (fsub t e) f64_one) < 2)%R).
-  { rewrite Rs. split; [|exact Hs].
-    rewrite <- (rndR_IZR 1) at 1 by lia. apply rndR_le. rewrite <- Rd. lra. }
-  destruct (build_float64_normal n _ Hn Fs Bs) as (Fb & Rb & Nb).
-  split; [exact Fb|]. split; [|exact Nb]. rewrite Rb, Rs. reflexivity.
+  rewrite f64_one_BR, Rd in Rs. rewrite <- Rs in HS |- *.
+  destruct (Rlt_le_dec (BR (fadd (fsub t e) f64_one)) 2) as [Hlt|Hge].
+  - destruct (build_float64_normal n _ Hn Fs (conj (proj1 HS) Hlt)) as (Fb & Rb & Nb).
+    split; [exact Fb|]. split; [exact Rb|exact Nb].
+  - (* the significand has rounded up to 2: then |t| < 1, so n + 1 <= 1023 *)
+    assert (Hn1 : n <= 0).
+    { destruct (Z_le_gt_dec n 0) as [H0|H0]; [exact H0|exfalso].
+      assert (1 <= BR t)%R by (apply Rle_trans with (IZR n); [apply IZR_le; lia|exact Hlb]).
+      pose proof (lin_sig_lt_2_of_ge_1 t) as Hc. unfold lin_sig in Hc. fold n in Hc.
+      rewrite <- Rs in Hc. rewrite Rabs_pos_eq in Hc by lra. specialize (Hc H). lra. }
+    destruct (build_float64_two n _ ltac:(lia) Fs) as (Fb & Rb & Nb); [lra|].
+    split; [exact Fb|]. split; [exact Rb|exact Nb].
 Qed.
 
 (* exact when t is a multiple of 2^-52 (in particular whenever |t| >= 1) *)
@@ -732,29 +911,8 @@ Lemma approx_inverse_log_lin_exact (t : f64) (k : Z) :
   BR (approx_inverse_log L MLin t) =
     ((1 + (BR t - IZR (Zfloor (BR t)))) * bpow radix2 (Zfloor (BR t)))%R.
 Proof.
-  intros Ft Fe Re Hn Hk. set (n := Zfloor (BR t)) in *.
-  pose proof (Zfloor_lb (BR t)) as Hlb. pose proof (Zfloor_ub (BR t)) as Hub. fold n in Hlb, Hub.
-  set (k' := k - n * 2 ^ 52).
-  assert (Ek : (BR t - IZR n = IZR k' * bpow radix2 (-52))%R).
-  { unfold k'. rewrite minus_IZR, mult_IZR, Hk, bpow_m52.
-    change (2 ^ 52) with 4503599627370496. field. }
-  assert (Bk : 0 <= k' < 2 ^ 52).
-  { assert (Eu : IZR k' = ((BR t - IZR n) * IZR 4503599627370496)%R)
-      by (rewrite Ek, bpow_m52; field).
-    change (2 ^ 52) with 4503599627370496. split.
-    - apply le_IZR. rewrite Eu. apply Rmult_le_pos; lra.
-    - apply lt_IZR. rewrite Eu.
-      replace (IZR 4503599627370496) with (1 * IZR 4503599627370496)%R at 2 by lra.
-      apply Rmult_lt_compat_r; lra. }
-  assert (E1 : rndR (BR t - IZR n) = (BR t - IZR n)%R).
-  { rewrite Ek. apply rndR_generic. apply format_52. lia. }
-  assert (E2 : rndR (BR t - IZR n + 1) = (BR t - IZR n + 1)%R).
-  { replace (BR t - IZR n + 1)%R with (IZR (k' + 2 ^ 52) * bpow radix2 (-52))%R.
-    - apply rndR_generic. apply format_52. change (2 ^ 53) with (2 ^ 52 + 2 ^ 52). lia.
-    - rewrite plus_IZR, Ek, bpow_m52. change (2 ^ 52) with 4503599627370496. field. }
-  destruct (approx_inverse_log_lin_R t Ft Fe Re Hn) as (F & R_ & _).
-  { fold n. rewrite E1, E2. lra. }
-  fold n in R_. rewrite E1, E2 in R_. split; [exact F|]. rewrite R_. f_equal. ring.
+  intros Ft Fe Re Hn Hk. destruct (approx_inverse_log_lin_R t Ft Fe Re Hn) as (F & R_ & _).
+  split; [exact F|]. rewrite R_, (lin_sig_exact _ k Hk). reflexivity.
 Qed.
 
 Lemma approx_inverse_log_lin_exact_ge_1 (t : f64) :
@@ -768,7 +926,7 @@ Proof.
   exact (approx_inverse_log_lin_exact t k Ft Fe Re Hn Hk).
 Qed.
 
-(* beyond the largest finite binade the repaired buildFloat64 saturates *)
+(* beyond the largest finite binade buildFloat64 saturates *)
 Lemma approx_inverse_log_lin_saturates (t : f64) :
   BR (l_floor L t) = IZR (Zfloor (BR t)) -> 1023 < Zfloor (BR t) ->
   approx_inverse_log L MLin t = f64_pinf.
@@ -777,11 +935,132 @@ Proof.
   rewrite int_of_f_R, Re, Ztrunc_IZR. exact Hn.
 Qed.
 
+(* float-level "LowerBound is non-decreasing": approximateInverseLog is monotone in t *)
+Lemma approx_inverse_log_lin_mono (t t' : f64) :
+  fin t -> fin t' -> (BR t <= BR t')%R ->
+  fin (l_floor L t) -> BR (l_floor L t) = IZR (Zfloor (BR t)) ->
+  fin (l_floor L t') -> BR (l_floor L t') = IZR (Zfloor (BR t')) ->
+  -1022 <= Zfloor (BR t) -> Zfloor (BR t') <= 1023 ->
+  (BR (approx_inverse_log L MLin t) <= BR (approx_inverse_log L MLin t'))%R.
+Proof.
+  intros Ft Ft' Htt Fe Re Fe' Re' Hlo Hhi.
+  pose proof (Zfloor_le _ _ Htt) as Hn.
+  destruct (approx_inverse_log_lin_R t Ft Fe Re ltac:(lia)) as (_ & -> & _).
+  destruct (approx_inverse_log_lin_R t' Ft' Fe' Re' ltac:(lia)) as (_ & -> & _).
+  apply lin_inv_mono. exact Htt.
+Qed.
+
 (* LowerBound *)
 Lemma gm_lower_lin_eq (m : gmap) (i : Z) : gm_kind m = MLin ->
   gm_lower L m i = approx_inverse_log L MLin (fdiv (fsub (f_of_int i) (gm_off m)) (gm_mult m)).
 Proof. intros K. unfold gm_lower. rewrite K. reflexivity. Qed.
 End Lower.
+
+(* division: a finite quotient by a nonzero divisor is the rounded exact quotient, of a finite dividend *)
+Lemma fdiv_R (a b : f64) : BR b <> 0%R -> fin (fdiv a b) ->
+  fin a /\ BR (fdiv a b) = rndR (BR a / BR b).
+Proof.
+  intros Hb Hf.
+  pose proof (Binary.Bdiv_correct 53 1024 eq_refl eq_refl binop_nan_pl64 mode_NE a b Hb) as H.
+  change (Binary.Bdiv 53 1024 eq_refl eq_refl binop_nan_pl64 mode_NE a b) with (fdiv a b) in H.
+  destruct (Rlt_bool _ _).
+  - destruct H as (H1 & H2 & _). split; [rewrite <- H2; exact Hf|exact H1].
+  - apply overflow_not_finite in H. congruence.
+Qed.
+
+Section LowerIndex.
+Variable L : libm.
+
+(* LowerBound is non-decreasing in the index (linear mapping), relative to an exact math.Floor *)
+Lemma gm_lower_lin_mono (m : gmap) (i j : Z) :
+  gm_kind m = MLin -> Z.abs i <= 2 ^ 53 -> Z.abs j <= 2 ^ 53 -> i <= j ->
+  fin (gm_off m) -> (0 < BR (gm_mult m))%R ->
+  let ti := fdiv (fsub (f_of_int i) (gm_off m)) (gm_mult m) in
+  let tj := fdiv (fsub (f_of_int j) (gm_off m)) (gm_mult m) in
+  fin ti -> fin tj ->
+  fin (l_floor L ti) -> BR (l_floor L ti) = IZR (Zfloor (BR ti)) ->
+  fin (l_floor L tj) -> BR (l_floor L tj) = IZR (Zfloor (BR tj)) ->
+  -1022 <= Zfloor (BR ti) -> Zfloor (BR tj) <= 1023 ->
+  (BR (gm_lower L m i) <= BR (gm_lower L m j))%R.
+Proof.
+  intros K Hi Hj Hij Fo Hm ti tj Fti Ftj Fei Rei Fej Rej Hlo Hhi.
+  subst ti tj. rewrite !(gm_lower_lin_eq L m _ K).
+  apply approx_inverse_log_lin_mono; try assumption.
+  destruct (f_of_int_correct i Hi) as (Fi & Ri). destruct (f_of_int_correct j Hj) as (Fj & Rj).
+  assert (Hz : BR (gm_mult m) <> 0%R) by lra.
+  destruct (fdiv_R _ _ Hz Fti) as (Fsi & ->). destruct (fdiv_R _ _ Hz Ftj) as (Fsj & ->).
+  rewrite (fsub_R _ _ Fi Fo Fsi), (fsub_R _ _ Fj Fo Fsj), Ri, Rj.
+  apply rndR_le. unfold Rdiv. apply Rmult_le_compat_r.
+  - apply Rlt_le. apply Rinv_0_lt_compat. exact Hm.
+  - apply rndR_le. apply Rplus_le_compat_r. apply IZR_le. exact Hij.
+Qed.
+End LowerIndex.
+
+(* ---- a witness against the code before the repair ---- *)
+Lemma fb_of_bits (r : f64) : fb (bits_of_f64 r) = r.
+Proof.
+  unfold fb, f64_of_bits, bits_of_f64.
+  rewrite Z2N.id by apply (bits_of_binary_float_range 52 11 eq_refl eq_refl r).
+  apply (binary_float_of_bits_of_binary_float 52 11 eq_refl eq_refl eq_refl).
+Qed.
+
+(* approximateInverseLog (linear) as it was before the repair of buildFloat64 *)
+Definition approx_inverse_log_lin_raw (L : libm) (t : f64) : f64 :=
+  let e := l_floor L t in build_float64_raw (int_of_f e) (fadd (fsub t e) f64_one).
+
+Definition t_tiny : f64 := fb 13560338478012563456.     (* -2^-60 = 0xbc30000000000000 *)
+Definition f_m1 : f64 := fb 13830554455654793216.       (* -1.0 *)
+Definition L_floor_m1 : libm :=
+  {| l_log := fun x => x; l_exp := fun x => x; l_exp2 := fun x => x; l_log2 := fun x => x;
+     l_pow := fun x _ => x; l_cbrt := fun x => x; l_sqrt := fun x => x; l_floor := fun _ => f_m1 |}.
+
+Lemma t_tiny_BR : BR t_tiny = (- / IZR (2 ^ 60))%R.
+Proof.
+  unfold t_tiny. rewrite BR_fb. set (u := binary_float_of_bits_aux 52 11 _). vm_compute in u. subst u.
+  unfold FF2R, F2R. cbn [Fnum Fexp cond_Zopp].
+  change (bpow radix2 (-112)) with (/ IZR (Z.pow_pos 2 112))%R.
+  change (Z.pow_pos 2 112) with (2 ^ 52 * 2 ^ 60). rewrite mult_IZR.
+  change (Z.neg 4503599627370496) with (- 2 ^ 52). rewrite opp_IZR.
+  change (2 ^ 52) with 4503599627370496. change (2 ^ 60) with 1152921504606846976. field.
+Qed.
+Lemma f_m1_BR : BR f_m1 = (-1)%R.
+Proof.
+  unfold f_m1. rewrite BR_fb. set (u := binary_float_of_bits_aux 52 11 _). vm_compute in u. subst u.
+  unfold FF2R, F2R. cbn [Fnum Fexp cond_Zopp].
+  change (bpow radix2 (-52)) with (/ IZR (Z.pow_pos 2 52))%R.
+  change (Z.pow_pos 2 52) with 4503599627370496. change (Z.neg 4503599627370496) with (- 4503599627370496).
+  rewrite opp_IZR. field.
+Qed.
+Lemma half_BR : BR (fb 4602678819172646912) = (/ 2)%R.
+Proof.
+  rewrite BR_fb. set (u := binary_float_of_bits_aux 52 11 _). vm_compute in u. subst u.
+  unfold FF2R, F2R. cbn [Fnum Fexp cond_Zopp].
+  change (bpow radix2 (-53)) with (/ IZR (Z.pow_pos 2 53))%R.
+  change (Z.pow_pos 2 53) with 9007199254740992. field.
+Qed.
+
+Theorem lower_lin_unrepaired_witness :
+  exists (L : libm) (t : f64),
+    fin t /\ fin (l_floor L t) /\ BR (l_floor L t) = IZR (Zfloor (BR t)) /\ Zfloor (BR t) = -1 /\
+    BR (approx_inverse_log_lin_raw L t) = (/ 2)%R /\
+    BR (approx_inverse_log L MLin t) = 1%R.
+Proof.
+  exists L_floor_m1, t_tiny.
+  assert (Hfl : Zfloor (BR t_tiny) = -1).
+  { apply Zfloor_imp. rewrite t_tiny_BR. change (2 ^ 60) with 1152921504606846976.
+    change (-1 + 1) with 0. simpl IZR. lra. }
+  split; [reflexivity|]. split; [reflexivity|]. split.
+  - rewrite Hfl. exact f_m1_BR.
+  - split; [exact Hfl|]. split.
+    + rewrite <- (fb_of_bits (approx_inverse_log_lin_raw L_floor_m1 t_tiny)).
+      replace (bits_of_f64 (approx_inverse_log_lin_raw L_floor_m1 t_tiny)) with 4602678819172646912%N
+        by (vm_compute; reflexivity).
+      exact half_BR.
+    + rewrite <- (fb_of_bits (approx_inverse_log L_floor_m1 MLin t_tiny)).
+      replace (bits_of_f64 (approx_inverse_log L_floor_m1 MLin t_tiny)) with 4607182418800017408%N
+        by (vm_compute; reflexivity).
+      exact f64_one_BR.
+Qed.
 
 (* ------------------------------------------------------------------ *)
 (* 9. special values                                                   *)
@@ -861,10 +1140,6 @@ Proof.
       apply Rmult_le_compat_l; [lra|]. apply bpow_le. unfold cexp, FLT_exp.
       pose proof (mag_le_bpow radix2 r e Hn Hr). lia.
 Qed.
-
-(* the value of a float given by its bits *)
-Lemma BR_fb (n : N) : BR (fb n) = FF2R radix2 (binary_float_of_bits_aux 52 11 (Z.of_N n)).
-Proof. unfold fb, f64_of_bits, b64_of_bits, binary_float_of_bits. apply B2R_FF2B. Qed.
 
 Definition cAr : R := (IZR 6176365203250966 / IZR 36028797018963968)%R.   (* * 2^-55 *)
 Definition cBr : R := (- IZR 5404319552844595 / IZR 9007199254740992)%R.   (* * 2^-53 *)
